@@ -78,20 +78,28 @@ structure Reply where
   content : Bytes
   deriving DecidableEq, Repr
 
+/-- the client after `sendall(command line)` and one `sendall` per extra line -/
+def afterWrites (c : Client) (name : Bytes) (args : List WArg) (extralines : List Bytes) : Client :=
+  extralines.foldl (fun acc l => write acc (l ++ CRLF)) (write c (commandBytes name args))
+
+/-- `code.decode()`, `data.decode("utf-8")` -/
+def decodeReply (resp : Resp) : Except RErr Reply :=
+  match resp.data with
+  | some d => if Utf8.valid d then .ok ⟨resp.code, resp.data, resp.content⟩
+              else .error (.crash "UnicodeDecodeError")
+  | none => .ok ⟨resp.code, resp.data, resp.content⟩
+
+/-- read the one reply that answers what was just written -/
+def awaitReply (c : Client) (nblines : Option Nat) : Res Reply :=
+  match readResponse nblines c.r with
+  | .error e => (.error e, c)   -- state of the reader after a failure is not observable
+  | .ok (resp, r') => (decodeReply resp, { c with r := r' })
+
 /-- `__send_command` -/
 def sendCommand (c : Client) (name : Bytes) (args : List WArg) (extralines : List Bytes := [])
     (nblines : Option Nat := none) : Res Reply :=
-  if !c.connected then (.error (.crash "AttributeError: sock is None"), c) else
-  let c1 := write c (commandBytes name args)
-  let c2 := extralines.foldl (fun acc l => write acc (l ++ CRLF)) c1
-  match readResponse nblines c2.r with
-  | .error e => (.error e, c2)   -- state of the reader after a failure is not observable
-  | .ok (resp, r') =>
-    let c3 := { c2 with r := r' }
-    match resp.data with
-    | some d => if Utf8.valid d then (.ok ⟨resp.code, resp.data, resp.content⟩, c3)
-                else (.error (.crash "UnicodeDecodeError"), c3)
-    | none => (.ok ⟨resp.code, resp.data, resp.content⟩, c3)
+  if !c.connected then (.error (.crash "AttributeError: sock is None"), c)
+  else awaitReply (afterWrites c name args extralines) nblines
 
 /-- `bytes.splitlines()` -/
 def splitLinesAux : Bytes → Bytes → List Bytes
